@@ -12,6 +12,7 @@
    of the two real runs (the laws are facts about CPython and about observing handlers; validated there, not proved). *)
 From Coq Require Import List ZArith NArith Bool.
 Import ListNotations.
+From PyccoloV Require model.FragSem proofs.FragSemProofs.
 From PyccoloV Require Import gen.PyAst gen.Ids gen.Events model.Tree model.Erase model.Prune model.RwFrag proofs.EraseSound proofs.PruneSound
   proofs.RwFragProofs proofs.RwFragProj.
 
@@ -70,3 +71,12 @@ Example C03_nonvacuous :
   check_proj K1 out1 out2 = true /\ check_proj K1 out1 out2_lost = false /\ check_proj K1 out1 out2_moved = false
   /\ check_only_subscribed K1 out1 = true /\ check_only_subscribed K1 out2 = false.
 Proof. vm_compute. repeat split; reflexivity. Qed.
+
+(* the projection property as a statement about EVALUATION on the fragment (model/FragSem.v), for ALL primitive operations: the stream
+   a tracer receives for its events K from the program instrumented for any superset E is the stream it receives when K alone is subscribed *)
+Theorem C03_frag_projection : forall binop cmpop unop truth cval is_and (K E : rcfg) (body : list FragSem.tstmt) (r : FragSem.env) (sv sv' : FragSem.val),
+  forallb FragSemProofs.src_s body = true -> (forall e, sub K e = true -> sub E e = true) ->
+  FragSem.filter_log K (FragSem.s_log (FragSem.exec_l binop cmpop unop truth cval is_and (FragSem.instr_module E body) r sv)) =
+  FragSem.filter_log K (FragSem.s_log (FragSem.exec_l binop cmpop unop truth cval is_and (FragSem.instr_module K body) r sv')).
+Proof. exact FragSemProofs.frag_projection. Qed.
+Print Assumptions C03_frag_projection.
